@@ -368,6 +368,7 @@ func (e *env) doFund(o opSpec) (failed bool) {
 		}
 	}
 	f.hi = e.clock()
+	e.checkWindow(t)
 	what := fmt.Sprintf("Fund(v2=%v, amount=%s, existing=%d, useUnconfirmed=%v)", o.V2, curStr(amount), o.Existing, o.Unc)
 	e.trace = append(e.trace, fmt.Sprintf("(Fund %s %s %d %s, None)", coqBool(o.V2), zlit(amount), o.Existing, coqBool(o.Unc)))
 	e.stats["fund"]++
@@ -734,6 +735,7 @@ func (e *env) doRedist(o opSpec) (failed bool) {
 	}
 	basis, txns, toSign, err := e.w.Redistribute(o.Outputs, amount, fpb)
 	hi := e.clock()
+	e.checkWindow(t)
 	what := fmt.Sprintf("Redistribute(outputs=%d, amount=%s, feePerByte=%s)", o.Outputs, curStr(amount), curStr(fpb))
 	e.trace = append(e.trace, fmt.Sprintf("(Redistribute %s %s %s [%s], None)", zint(o.Outputs), zlit(amount), zlit(fpb.Mul64(241)), strings.Join(feeOut, "; ")))
 	e.stats["redist"]++
@@ -802,6 +804,7 @@ func (e *env) doSplit(o opSpec) (failed bool) {
 	fee := e.w.RecommendedFee().Mul64(2000)
 	txn, err := e.w.SplitUTXO(o.N, minAmt)
 	hi := e.clock()
+	e.checkWindow(t)
 	what := fmt.Sprintf("SplitUTXO(n=%d, minAmount=%s)", o.N, curStr(minAmt))
 	e.stats["split"]++
 	var res, opc string
